@@ -791,6 +791,34 @@ print(r, sorted([3, 1, 2], key = work))
     return {"fam": "gen", "src": src, "opts": dict(ALL_ON, Recursion=(k % 2 == 1))}
 
 
+ZONES = ["Europe/Paris", "America/Lima", "Asia/Tokyo", "UTC", "US/Eastern"]
+
+
+def spellings(z):
+    return [z, z.lower(), z.upper(), z.swapcase(), z.replace("/", "//"), " " + z, z + "x"]
+
+
+def gen_zones(rnd, k):
+    """names looked up in process-wide tables (time zones): a name in one spelling before and after the same name in
+    another spelling, in one program and across the programs that share a process.  What a name resolves to is a function
+    of the name alone, never of the names resolved earlier."""
+    z = ZONES[k % len(ZONES)]
+    sp = spellings(z)
+    a = sp[(k // len(ZONES)) % len(sp)]
+    b = rnd.choice(sp)
+    order = [a, z, a, b] if k % 2 == 0 else [z, a, b, z]
+    lines = ["seen = []"]
+    for n in order:
+        lines.append('seen.append((%r, time.is_valid_timezone(%r)))' % (n, n))
+    lines.append("print(seen)")
+    lines.append("t = time.time(year=2020, month=7, day=1, hour=12, location=%r)" % z.replace("'", ""))
+    lines.append("print(t, t.in_location(%r) if time.is_valid_timezone(%r) else None)" % (b, b))
+    last = rnd.choice(order)
+    lines.append("u = time.parse_time(\"2020-07-01T12:00:00Z\").in_location(%r)" % last)
+    lines.append('print(u, "end")')
+    return {"fam": "gen", "src": "\n".join(lines).replace("'", '"') + "\n", "opts": dict(ALL_ON)}
+
+
 def generate(ctx):
     rnd = random.Random(ctx.seed)
     pool = build_pool(rnd)
@@ -803,6 +831,10 @@ def generate(ctx):
         progs.append(p)
     for k in range(12 if ctx.quick else 60):
         p = gen_busy(rnd, k)
+        p["id"] = len(progs) + 1
+        progs.append(p)
+    for k in range(35 if ctx.quick else 140):
+        p = gen_zones(rnd, k)
         p["id"] = len(progs) + 1
         progs.append(p)
     for k in range(40 if ctx.quick else 400):
